@@ -23,6 +23,16 @@ T=[
  ("C12","goto inside a plain closure","negative control: goto inside a plain closure nested in a generator rejected with \"goto not supported\""),
  ("C01","a yielding three-clause for loop without a condition","'for init; ; post { ...Yield... }' (no condition): compiler panic (typed nil condition literal reaches the printer); reported by a sub-agent, not in the generator's loop forms before"),
  ("C03","a ':=' that re-uses a variable declared a new one","'p, q := f()' re-using p after a yield declared a new p inside the continuation thunk: closures created before the yield kept the old variable / output did not build; reported by a sub-agent, shape added to the scope profile"),
+ ("C01","a break after a yield inside a switch case left","A1: break that follows a Yield inside a switch case was emitted as the Break signal and left the enclosing loop / ended the generator (was a known finding; repaired with the new combinator seq.Breakable)"),
+ ("C01","continue skipped the post statement","A2: continue in a for loop whose post statement yields skipped the post statement (was a known finding; repaired with the new combinator seq.Continuable)"),
+ ("C07","import clean-up ran before the reductions","import clean-up ran before eta reduction for the first file of an invocation: a package whose last use the reduction removed stayed imported, output did not build; reported by a sub-agent"),
+ ("C04","range over a named string type","range over a named string type in a generator: generated code does not build; reported by two sub-agents, shape added to the range profile"),
+ ("C12","a labelled range statement inside a plain closure","negative control: labelled range inside a plain closure of a generator: compiler panic \"InsertBefore node not contained in slice\"; reported by a sub-agent"),
+ ("C13","doc comments and directives of a file were dropped","file with a generator function literal: all doc comments incl. //go: directives dropped from the generated file; reported by a sub-agent"),
+ ("C16","files left in the intermediate directory by a killed run","stale <dir>_tmp of a killed run (or any directory of that name) holding rewritten files: they were optimised and written into the package as extra derived files; reported by a sub-agent"),
+ ("C12","break inside a select statement of a plain closure","negative control: break inside a select in a plain closure of a generator became seq.Break, output did not build; reported by a sub-agent"),
+ ("C12","Yield used as a function value","Yield used as a function value ('y := Yield[int]; y(1)') was accepted and the value silently dropped; reported by a sub-agent"),
+ ("C06","'for range it' over an iterator without a loop variable","'for range it' (no loop variable) over an iterator: compiler panic \"invalid for range\"; reported by a sub-agent, form added to the consumer profile"),
 ]
 log=subprocess.check_output(["git","-C","/repo","log","--format=%h %s"],text=True).splitlines()
 def find(sub):
